@@ -102,7 +102,13 @@ Shapes(f) ==
       [] f = "laea" -> LaeaShapes
       [] f = "somerc" -> {Sh("somerc lat_0=46.9524055555556 lon_0=7.43958333333333 k_0=1 x_0=2600000 y_0=1200000", 7, 47), Sh("somerc lat_0=47 lon_0=8", 8, 47)}
       [] f = "omerc" -> {Sh("omerc lonc=115 latc=4 alpha=53:18:56.9537 gamma_c=53:07:48.3685 k_0=0.99984", 115, 4),
-                         Sh("omerc lonc=115 latc=4 alpha=53:18:56.9537 gamma_c=53:07:48.3685 k_0=0.99984 x_0=590476.87 y_0=442857.65 variant", 115, 4)}
+                         Sh("omerc lonc=115 latc=4 alpha=53:18:56.9537 gamma_c=53:07:48.3685 k_0=0.99984 x_0=590476.87 y_0=442857.65 variant", 115, 4),
+                         \* the Laborde form (no gamma_c), with and without `variant`; the southern hemisphere; alpha = 90
+                         Sh("omerc latc=-18.9 lonc=46.43722917 alpha=18.9 k_0=0.9995 x_0=400000 y_0=800000", 46, -19),
+                         Sh("omerc lonc=115 latc=4 alpha=53:18:56.9537 k_0=0.99984 variant", 115, 4),
+                         Sh("omerc latc=40 lonc=20 alpha=90 gamma_c=90 variant", 20, 40),
+                         Sh("omerc latc=-40 lonc=20 alpha=90 gamma_c=90", 20, -40),
+                         Sh("omerc latc=-40 lonc=20 alpha=-30 gamma_c=-30 variant", 20, -40)}
       [] f \in {"cart", "cart_high"} -> {Kind(Sh("cart", 0, 0), "geo", "xyz")}
       [] f = "latitude" -> {Kind(Sh("latitude " \o g, 0, 0), "geo", "geo") : g \in LatFlags}
       [] f = "helmert_translation" -> {IntKind(Sh(t, 0, 0)) : t \in {"helmert x=-87 y=-96 z=-120", "helmert translation=1,2,3", "helmert x=1000000 z=-3"}}
